@@ -5,6 +5,8 @@
 #include <atomic>
 #include <cstddef>
 #include <functional>
+#include <tuple>
+#include <type_traits>
 extern "C" {
 void verif_mutex_lock(void* m); void verif_mutex_unlock(void* m);
 void verif_cv_wait(void* cv, void* m); void verif_cv_notify(void* cv, bool all);
@@ -33,6 +35,13 @@ class thread { public:
     thread() noexcept : id_(0) {} thread(const thread&) = delete;
     thread(thread&& o) noexcept : id_(o.id_) { o.id_ = 0; }
     thread& operator=(thread&& o) noexcept { id_ = o.id_; o.id_ = 0; return *this; }
+    // member-function threads (tlx::ThreadPool): the closure lives in a static typed pool, so that the member pointer (function address and
+    // this-adjustment) is constant-propagated by the model checker instead of being re-read from an untyped heap block
+    template <typename C, typename... P, typename... A> explicit thread(void (C::*mf)(P...), C* obj, A&&... a) {
+        struct Clo { void (C::*mf)(P...); C* obj; ::std::tuple<typename ::std::decay<A>::type...> args; };
+        static Clo pool[4]; static unsigned used = 0;
+        Clo* c = &pool[used++ & 3]; c->mf = mf; c->obj = obj; c->args = ::std::tuple<typename ::std::decay<A>::type...>(a...);
+        id_ = verif_thread_spawn([](void* p) { Clo* cc = static_cast<Clo*>(p); ::std::apply([cc](auto&... x) { (cc->obj->*(cc->mf))(x...); }, cc->args); }, c); }
     template <typename F, typename... A> explicit thread(F&& f, A&&... a) {
         auto* c = new auto([f, a...]() mutable { ::std::invoke(f, a...); });
         using C = typename ::std::remove_pointer<decltype(c)>::type;
